@@ -365,7 +365,7 @@ def gen_facade(mods):
 def gen_misc(mods):
     from translate import HEADER, coq_str, const_int, src_of
     lines = [HEADER.format(src="scsi_command.py (init_cdb), scsi.py (attach table), iscsi_device.py (status dispatch)",
-                           extra=" Model.Command Model.Enum Model.Exec")]
+                           extra=" Model.Command Model.Enum Model.Exec Gen.Tables")]
     info = {}
     unknown = []
     # ---- SCSICommand.init_cdb: if lo <= opcode.value <= hi: cdb = bytearray(n) | raise ... else: raise
@@ -453,9 +453,130 @@ def gen_misc(mods):
     lines.append("Definition sgio_cc_handler : list gact := [%s].\n" % "; ".join(handler))
     info["iscsi_prog"] = [[n, acts] for n, acts in prog]
     info["sgio_handler"] = handler
+    # ---- SCSICheckCondition.__init__ / __str__ / _describe_ascq
+    sinfo, slines, sunk = sense_class(mods)
+    lines += slines
+    unknown += sunk
+    info["sense_class"] = sinfo
     lines.append("Definition unknown_misc : list string := [" + "; ".join(coq_str(u) for u in unknown) + "].\n")
     info["unknown"] = unknown
     return "\n".join(lines), info
+
+
+def sense_class(mods):
+    """the format dispatch of SCSICheckCondition.__init__ and the lookup forms of __str__ / _describe_ascq"""
+    from translate import coq_str, const_int, src_of, ident
+    mod = next(m for m in mods if m.stem == "scsi_sense")
+    unknown, lines = [], []
+    consts = {}
+    for node in mod.tree.body:
+        if isinstance(node, ast.Assign) and len(node.targets) == 1 and isinstance(node.targets[0], ast.Name):
+            v = const_int(node.value)
+            if v is not None:
+                consts[node.targets[0].id] = v
+    cls = next((n for n in mod.tree.body if isinstance(n, ast.ClassDef) and n.name == "SCSICheckCondition"), None)
+    fns = {m.name: m for m in cls.body if isinstance(m, ast.FunctionDef)} if cls else {}
+    # staticmethod unmarshall_X(data): decode_bits(data, SCSICheckCondition.<table>, result)
+    tbl_of = {}
+    for name, fn in fns.items():
+        for sub in ast.walk(fn):
+            if isinstance(sub, ast.Call) and isinstance(sub.func, ast.Name) and sub.func.id == "decode_bits" and len(sub.args) == 3:
+                d = dotted(sub.args[1])
+                if d and d.startswith("SCSICheckCondition."):
+                    tbl_of[name] = "T_" + ident("scsi_sense__SCSICheckCondition__" + d.split(".")[1])
+    dispatch, init_asc, init_ascq = [], "None", "None"
+    init = fns.get("__init__")
+    if init is None:
+        unknown.append("SCSICheckCondition.__init__ missing")
+    else:
+        for st in init.body:
+            if isinstance(st, ast.Assign) and len(st.targets) == 1 and dotted(st.targets[0]) in ("self.asc", "self.ascq"):
+                v = const_int(st.value)
+                if v is None:
+                    unknown.append("sense __init__: " + src_of(st, mod.text))
+                elif dotted(st.targets[0]) == "self.asc":
+                    init_asc = "(Some %d)" % v
+                else:
+                    init_ascq = "(Some %d)" % v
+            if isinstance(st, ast.If):
+                node = st
+                while True:
+                    codes = None
+                    t = node.test
+                    if isinstance(t, ast.Compare) and len(t.ops) == 1 and dotted(t.left) == "self.response_code":
+                        c = t.comparators[0]
+                        if isinstance(t.ops[0], ast.Eq) and isinstance(c, ast.Name) and c.id in consts:
+                            codes = [consts[c.id]]
+                        elif isinstance(t.ops[0], ast.In) and isinstance(c, (ast.Tuple, ast.List)) \
+                                and all(isinstance(e, ast.Name) and e.id in consts for e in c.elts):
+                            codes = [consts[e.id] for e in c.elts]
+                    tbl, asck, ascqk, ok = None, None, None, codes is not None
+                    for b in node.body:
+                        if isinstance(b, ast.Assign) and len(b.targets) == 1:
+                            tg = dotted(b.targets[0])
+                            if tg == "self.data" and isinstance(b.value, ast.Call) and dotted(b.value.func) \
+                                    and dotted(b.value.func).startswith("self.") and dotted(b.value.func).split(".")[1] in tbl_of:
+                                tbl = tbl_of[dotted(b.value.func).split(".")[1]]
+                                continue
+                            if tg in ("self.asc", "self.ascq") and isinstance(b.value, ast.Subscript) \
+                                    and dotted(b.value.value) == "self.data" and isinstance(b.value.slice, ast.Constant):
+                                if tg == "self.asc":
+                                    asck = b.value.slice.value
+                                else:
+                                    ascqk = b.value.slice.value
+                                continue
+                        ok = False
+                    if not ok or tbl is None or asck is None or ascqk is None:
+                        unknown.append("sense __init__ branch: " + src_of(node.test, mod.text))
+                    else:
+                        dispatch.append("([%s], %s, %s, %s)" % ("; ".join(str(c) for c in codes), tbl, coq_str(asck), coq_str(ascqk)))
+                    if len(node.orelse) == 1 and isinstance(node.orelse[0], ast.If):
+                        node = node.orelse[0]
+                        continue
+                    if node.orelse:
+                        unknown.append("sense __init__: else branch")
+                    break
+    # __str__: optional guard `if "sense_key" not in self.data: return ...`; key text lookup strict or .get(default)
+    guard, key_default, ascq_default = "false", "None", "None"
+
+    def lookup_form(node, dname):
+        """('strict'|default text|None)  for  dname[...]  /  dname.get(..., "text")"""
+        for sub in ast.walk(node):
+            if isinstance(sub, ast.Subscript) and isinstance(sub.value, ast.Name) and sub.value.id == dname:
+                return "strict"
+            if isinstance(sub, ast.Call) and dotted(sub.func) == dname + ".get" and len(sub.args) == 2 \
+                    and isinstance(sub.args[1], ast.Constant) and isinstance(sub.args[1].value, str):
+                return sub.args[1].value
+        return None
+    st = fns.get("__str__")
+    if st is None:
+        unknown.append("SCSICheckCondition.__str__ missing")
+    else:
+        for b in st.body:
+            if isinstance(b, ast.If) and isinstance(b.test, ast.Compare) and len(b.test.ops) == 1 \
+                    and isinstance(b.test.ops[0], ast.NotIn) and isinstance(b.test.left, ast.Constant) \
+                    and b.test.left.value == "sense_key" and dotted(b.test.comparators[0]) == "self.data" \
+                    and len(b.body) == 1 and isinstance(b.body[0], ast.Return):
+                guard = "true"
+        f = lookup_form(st, "sense_key_dict")
+        if f is None:
+            unknown.append("__str__: no sense_key_dict lookup")
+        elif f != "strict":
+            key_default = "(Some %s)" % coq_str(f)
+    da = fns.get("_describe_ascq")
+    if da is None:
+        unknown.append("_describe_ascq missing")
+    else:
+        f = lookup_form(da, "sense_ascq_dict")
+        if f is None:
+            unknown.append("_describe_ascq: no sense_ascq_dict lookup")
+        elif f != "strict":
+            ascq_default = "(Some %s)" % coq_str(f)
+    lines.append("Definition sense_dispatch : list (list N * layout * string * string) := [%s].\n" % "; ".join(dispatch))
+    lines.append("Definition sense_init_asc : option N := %s.\nDefinition sense_init_ascq : option N := %s.\n" % (init_asc, init_ascq))
+    lines.append("Definition sense_str_guard : bool := %s.\n" % guard)
+    lines.append("Definition sense_key_default : option string := %s.\nDefinition sense_ascq_default : option string := %s.\n" % (key_default, ascq_default))
+    return dict(dispatch=dispatch, guard=guard, key_default=key_default, ascq_default=ascq_default), lines, unknown
 
 
 EXEC_EXN = {"ReservationConflict": "ReservationConflict", "TaskAborted": "TaskAborted", "BusyStatus": "BusyStatus",
